@@ -39,6 +39,18 @@ mxClassID mxGetClassID(const mxArray* pa);
 bool mxIsComplex(const mxArray* pa);
 bool mxIsDouble(const mxArray* pa);
 bool mxIsChar(const mxArray* pa);
+/* further documented queries (not called by the unchanged code; present so that edits of it still build) */
+bool mxIsEmpty(const mxArray* pa);
+size_t mxGetNumberOfElements(const mxArray* pa);
+mwSize mxGetNumberOfDimensions(const mxArray* pa);
+bool mxIsNumeric(const mxArray* pa);
+bool mxIsLogical(const mxArray* pa);
+bool mxIsCell(const mxArray* pa);
+bool mxIsStruct(const mxArray* pa);
+bool mxIsInt32(const mxArray* pa);
+bool mxIsInt64(const mxArray* pa);
+bool mxIsUint64(const mxArray* pa);
+bool mxIsScalar(const mxArray* pa);
 char* mxArrayToString(const mxArray* pa);
 int mxGetString(const mxArray* pa, char* buf, mwSize buflen);
 
